@@ -157,5 +157,5 @@ pub fn parts() -> Vec<Part> {
         Part { name: "fonts", genome_len: 700, cases_quick: 1200, cases_thorough: 30_000, threads: 12, max_shrink_iters: 300, check: Box::new(check_fonts), remote: None },
     ]
 }
-pub const RULE: &str = "1-3 axes; default at min / inside / at max; design extents in units of 64 (or 100: awkward class); optional user->design map with min/default/max nodes + 0-3 interior nodes at dyadic positions (+ flat segment class); 0-4 named instances at dyadic normalized locations. converter: fontdrasil CoordConverter vs reference piecewise-linear code on ~60 user values per axis (nodes, midpoints, just past nodes, random) + node round trips; fonts: fvar bounds exact, avar required nodes and monotonicity, fvar-default-normalisation + own avar evaluation vs reference design normalisation within 2^-14(1+slope)+2^-14, instance coordinates in range and mapping back to the source design location. non-trivial = the mapping bends (deviates from default normalisation by > 1/64); distinct = hash of the model";
+pub const RULE: &str = "1-3 axes; default at min / inside / at max; design extents in units of 64 (or 100: awkward class); optional user->design map with min/default/max nodes + 0-3 interior nodes (a fifth of the maps are the identity at min / default / max and bend only in between) at dyadic positions (+ flat segment class); 0-4 named instances at dyadic normalized locations. converter: fontdrasil CoordConverter vs reference piecewise-linear code on ~60 user values per axis (nodes, midpoints, just past nodes, random) + node round trips; fonts: fvar bounds exact, avar required nodes and monotonicity, fvar-default-normalisation + own avar evaluation vs reference design normalisation within 2^-14(1+slope)+2^-14, instance coordinates in range and mapping back to the source design location. non-trivial = the mapping bends (deviates from default normalisation by > 1/64); distinct = hash of the model";
 pub const ASSUMPTIONS: &[&str] = &["user and design node values are multiples of 1/16 so Fixed 16.16 and the f32 parse of the designspace reader are exact", "flat map segments are generated only at interior nodes (design min/default/max stay unique)"];
